@@ -7,7 +7,7 @@ import sys
 sys.path.insert(0, os.path.join(os.path.dirname(os.path.abspath(__file__)), "..", "lib"))
 from gen_engine import dumps  # noqa: E402
 
-LEAN_MODULES = ["KmipModel.Props.C05", "KmipModel.Props.C05Convert"]
+LEAN_MODULES = ["KmipModel.Props.C05", "KmipModel.Props.C05Convert", "KmipModel.Props.C05Listing"]
 RULE = ("end-to-end: every one of the seven stored object types is registered through the real ProxyKmipClient "
         "(request encoded to bytes, decoded by the server-side decoder, processed by the real engine, stored in a "
         "SQLite file), the engine is re-created on the same file for a share of the cases, and Get / GetAttributes / "
